@@ -117,3 +117,14 @@ Definition check_sign (cert_raw issuer_raw : bytes) (serial : N) (oid : list N) 
            (tbs : bytes) (impl : bytes) : bool :=
   bytes_eqb (sign_pkcs7 cert_raw issuer_raw serial oid content time sig) impl &&
   bytes_eqb (sign_pkcs7_tbs oid content time) tbs.
+
+(* R_C06: the produced signed update is exactly the model's bytes, and the
+   signer was handed the model's digest *)
+From GoUefi Require Import Model.Util Model.WinCert Model.VarSign.
+Definition check_efi_sign (cert_raw issuer_raw : bytes) (serial : N) (name : bytes) (g : guid) (attrs : N)
+           (t : efitime) (payload p7time sig tbs impl : bytes) : bool :=
+  bytes_eqb (sign_efi_variable cert_raw issuer_raw serial name g attrs t payload p7time sig) impl &&
+  bytes_eqb (sign_efi_variable_tbs name g attrs t payload p7time) tbs.
+Definition efi_signed_buffer := signed_buffer.
+Definition efi_sign_model := sign_efi_variable.
+Definition efi_sign_tbs_model := sign_efi_variable_tbs.
